@@ -16,17 +16,18 @@ Alphabet == {48, 49, 50, 57, 97, 66, 45, 46}
 RECURSIVE Strings(_)
 Strings(n) == IF n = 0 THEN {<<>>} ELSE LET P == Strings(n - 1) IN P \cup {Append(p, c) : p \in {q \in P : Len(q) = n - 1}, c \in Alphabet}
 U == {t \in Strings(K) : t = <<>> \/ IsPre(t)}
-US == SetToSeq(U)
-N == Len(US)
-
-VARIABLES i, j
-vars == <<i, j>>
-Init == i \in 1..N /\ j = 1
-Next == j < N /\ j' = j + 1 /\ i' = i
+\* The universe is computed once, in Init, and carried in a state variable (TLC re-evaluates
+\* definitions built from RECURSIVE operators at every use; a variable is evaluated once).
+VARIABLES univ, i, j
+vars == <<univ, i, j>>
+N == Len(univ)
+Init == univ = SetToSeq(U) /\ i \in 1..Len(univ) /\ j = 1
+Next == j < N /\ j' = j + 1 /\ i' = i /\ univ' = univ
 Spec == Init /\ [][Next]_vars
 
-a == US[i]
-b == US[j]
+a == univ[i]
+b == univ[j]
+US == univ
 
 Order ==
   LET c == PreCmp11(a, b) IN
